@@ -182,10 +182,14 @@ def run(ctx):
     # from_string range-checks every element unless told the text is valid
     f_fs = ctx.anchor("NumericArray.from_string", NA.find_method("from_string"))
 
+    class NAList(list):
+        """a NumericArray under interpretation: a list that can carry
+        attributes and whose other methods are those of the class"""
+
     class FSHooks(TagHooks):
         def construct(self, ev, cls, args, kwargs):
             if cls is NA:
-                return ("NumericArray", list(args[0]) if args else [])
+                return NAList(args[0] if args else [])
             return super().construct(ev, cls, args, kwargs)
 
         def method(self, ev, base, name, args, kwargs, node):
@@ -207,12 +211,53 @@ def run(ctx):
             ok = out[0] == "raise" and str(out[1]).endswith(want[1:]) and \
                 is_library_error(repo, f_fs.module, out[1])
         else:
-            ok = out[0] == "return" and isinstance(out[1], tuple) and \
-                out[1][1] == want
+            ok = out[0] == "return" and isinstance(out[1], NAList) and \
+                list(out[1]) == want
         ctx.oblige(ok)
         if not ok:
             ctx.violation(R, f_fs.short, "text=%r,valid=%s" % (text, valid),
                           "gives %r, expected %s" % (out[1], want))
+    # the subtype written is the smallest one holding the array *as it is
+    # now*: an array parsed from text and then edited in place (append,
+    # element assignment), or parsed with a wider subtype than needed, is
+    # written with the subtype of its present content
+    class HistHooks(TagHooks):
+        def construct(self, ev, cls, args, kwargs):
+            if cls is NA:
+                return NAList(args[0] if args else [])
+            return super().construct(ev, cls, args, kwargs)
+
+        def method(self, ev, base, name, args, kwargs, node):
+            if isinstance(base, NAList):
+                m = NA.find_method(name)
+                if m is not None:
+                    return ev.inline(m, [base] + list(args), kwargs)
+            return super().method(ev, base, name, args, kwargs, node)
+    for text, edit, want in (
+            ("C,1,2,3", lambda a: a.append(300), "S"),
+            ("C,1,2,3", lambda a: a.__setitem__(0, -1), "c"),
+            ("I,7,8", lambda a: None, "C"),
+            ("i,-1,5", lambda a: a.__setitem__(0, 70000), "I"),
+            ("S,1000", lambda a: a.extend([1.5]), "!ValueError")):
+        ctx.instance(R)
+        out = eval_function(repo, f_fs, [NA, text], {"valid": False},
+                            hooks=HistHooks(repo))
+        arr = out[1] if out[0] == "return" else None
+        if not isinstance(arr, NAList):
+            ok, got = False, out[0:2]
+        else:
+            edit(arr)
+            out2 = eval_function(repo, f_cs, [arr], hooks=HistHooks(repo))
+            got = out2[0:2]
+            if want.startswith("!"):
+                ok = out2[0] == "raise" and str(out2[1]).endswith(want[1:])
+            else:
+                ok = out2[0] == "return" and out2[1] == want
+        ctx.oblige(ok)
+        if not ok:
+            ctx.violation(R, f_cs.short, "parsed %r then edited to %r" % (
+                text, list(arr) if arr is not None else None),
+                "compute_subtype gives %r, expected %s" % (got, want))
     ctx.exhaustive[R] = True
     ctx.sample({"rule": R, "boundary_values": bounds[:8] + ["..."],
                 "integer_type_cells": n_cells})
